@@ -35,6 +35,10 @@ func (e *Engine) verifyFunc(key string) (res *FuncResult) {
 		res.Assumed = true
 		return
 	}
+	// symbolic names are local to one function: restarting the counter makes the queries of a function
+	// independent of which functions were verified before it in the same process
+	freshCounter = 0
+	constTop = map[string]*Term{}
 	fn := e.funcs[key]
 	if fn == nil || fn.Blocks == nil {
 		res.Err = "contract names a function that does not exist (or has no body): " + key
